@@ -375,6 +375,7 @@ func (vc *VC) applyContract(fr *Frame, st *State, callee *ssa.Function, con *Con
 		t := env.evalBool(r.Expr)
 		if env.err != nil {
 			vc.unsupported("requires %q of %s: %v", r.Src, key, env.err)
+			vc.oblige(st, "requires", fmt.Sprintf("%s#call:%s.requires%d", funcKey(fr.fn), shortKey(key), i+1), "precondition of "+key+" cannot be evaluated ("+env.err.Error()+"): "+r.Src, pos, "false")
 			env.err = nil
 			continue
 		}
@@ -428,7 +429,8 @@ func (vc *VC) applyContract(fr *Frame, st *State, callee *ssa.Function, con *Con
 	for _, e := range con.Ensures {
 		t := post.evalBool(e.Expr)
 		if post.err != nil {
-			vc.unsupported("ensures %q of %s: %v", e.Src, key, post.err)
+			// a callee postcondition that cannot be evaluated here is simply not available (weaker, sound)
+			vc.note("ensures %q of %s not usable at this call: %v", e.Src, key, post.err)
 			post.err = nil
 			continue
 		}
@@ -497,7 +499,7 @@ func (vc *VC) havocModifies(st *State, env *Env, callee *ssa.Function, m string)
 			vc.havocAllHeap(st)
 			return
 		}
-		v := env.eval(e)
+		v := arrayAsSlice(env.eval(e))
 		if v.K != KSlice {
 			vc.unsupported("modifies %q: not a slice", m)
 			vc.havocAllHeap(st)
@@ -682,4 +684,14 @@ func intrBinaryRead(vc *VC, fr *Frame, st *State, args []Val, c *ssa.CallCommon,
 	vc.sc.assert(sx(">", etag, "0"))
 	eref := vc.alloc(st, "err")
 	return Val{K: KIface, T: errT, If: [2]string{ite(okc, "0", etag), ite(okc, "0", eref)}}
+}
+
+// arrayAsSlice views a pointer to a heap array as the slice of all its elements.
+func arrayAsSlice(v Val) Val {
+	if v.K == KPtr && v.L != nil && v.L.Kind == locArr && len(v.L.Path) == 0 {
+		at := v.L.Base.Underlying().(*types.Array)
+		n := i64(at.Len())
+		return Val{K: KSlice, T: types.NewSlice(at.Elem()), Sl: [4]string{v.L.Ref, i64(0), n, n}}
+	}
+	return v
 }
